@@ -7,6 +7,8 @@ PROP = {
         "IdenaModel.Chain.foreign_epoch_never_applied",
         "IdenaModel.Chain.inv_run",
         "IdenaModel.Chain.applied_rejected",
+        "IdenaModel.Chain.inv_clearEpoch",
+        "IdenaModel.Chain.clear_mid_epoch_allows_replay",
         "IdenaModel.C06Refine.applyTx_refines",
         "IdenaModel.C06Refine.ledger_run_refines",
         "IdenaModel.C06Refine.ledger_chain",
